@@ -117,7 +117,7 @@ def splitTerminator (sep : UInt8) (s : Bytes) : List Bytes :=
 
 def headerTokens (hs : List Header) (name : Bytes) : List Bytes :=
   (headerMultiValue hs name).flatMap fun v =>
-    (splitTerminator COMMA v).map fun t => lower (trimBy isAsciiWs t)
+    (splitTerminator COMMA v).map fun t => lower (rustTrim t)   -- `.map(str::trim).map(str::to_ascii_lowercase)`
 
 def hasHeaderToken (hs : List Header) (name token : Bytes) : Bool :=
   (headerTokens hs name).any (· == lower token)
